@@ -23,7 +23,7 @@ MANIFEST = {
              '(each is an invariant of the search history). The claim is "these parts are as the property needs them".'),
 }
 EXPLANATION = 'Unsafe inventory + premise dominance for the sentinel scans + structural completeness facts of run_dispatch.'
-RULES = ['C05-1.unsafe', 'C05-1.premises', 'C05-2.complete', 'C05-3.timedpath', 'C05-4.times', 'C05-5.index', 'C05-6.cursor', 'C05-7.blocking', 'C05-8.queue']
+RULES = ['C05-1.unsafe', 'C05-1.premises', 'C05-2.complete', 'C05-3.timedpath', 'C05-4.times', 'C05-5.index', 'C05-6.cursor', 'C05-7.blocking', 'C05-8.queue', 'C05-9.divnodes']
 ASSUMPTIONS = ['the sentinel index passed by callers is the one the scan was designed for (not decided)']
 
 # reviewed unsafe sites: function -> number of unchecked accesses (DESIGN A.3; 14 in total)
@@ -39,6 +39,7 @@ def run(ctx):
     cursor(ctx)
     blocking(ctx)
     queue(ctx)
+    divnodes(ctx)
     # clauses shared with C04, decided by the same rules: the time an advance starts from and the stamps it writes (arrival times
     # non-decreasing and never faster than the free-running estimates), and the addressing of authorities (a wrong entry index
     # reads another train's authority or aborts past the end of the list)
@@ -641,3 +642,53 @@ def queue(ctx):
                 okB = ti is not None and ti[0] == 'pre' and ti[1][0][0] in ('val', 'obj') and tm is not None and tm[0] == 'pre' and tm[1][-1] == ('f', 'time_update') \
                     and any(comp[0] == 'idx' and repr(ti) in repr(comp) for comp in tm[1])
     ctx.check(okB, R, 'run_dispatch|waiting trains', 'each train that was waiting is re-entered under its own index with its own update time', 'closure pushes %s' % txt, w)
+
+
+# ------------------------------------------------------------------ C05-9
+def divnodes(ctx):
+    """C05-9.divnodes: when a re-plan replaces a stretch of the path, the list of diverge nodes is spliced to match and the caller
+    continues its scan from the cursor that is returned.  The unchecked scans (C05-1) start from that cursor behind one assert, so
+    a cursor that does not point at the first node after the spliced-in part aborts the dispatch or silently skips diverge nodes.
+    Decided: the replaced range starts at the split cursor and ends at the first later node that lies beyond the old join (unit-step
+    search from the split cursor); what is spliced in is all of `div_nodes_new` but its first entry (the split node itself); the
+    cursor returned is split + (number of spliced-in nodes) = split + len(div_nodes_new) - 1."""
+    R = 'C05-9.divnodes'
+    prog = ctx.prog
+    eng = engine(ctx)
+    b = prog.by_id.get('TrainDisp::update_div_nodes')
+    if b is None:
+        ctx.unproved(R, 'TrainDisp::update_div_nodes', 'anchor not found'); return
+    eng.all_paths.add(b.fid)
+    an = analysis_or_fail(ctx, R, b)
+    if an is None:
+        return
+    w = ctx.where(b)
+    from sa.terms import mk
+    try:
+        split, jb = an.arg('div_idx_split'), an.arg('idx_join_base')
+    except KeyError:
+        ctx.unproved(R, 'TrainDisp::update_div_nodes', 'parameters div_idx_split / idx_join_base not found', w); return
+    NEW = ('pre', (('obj', 1), ('f', 'div_nodes_new')))
+    sp = [c for c in an.calls if '::splice' in c.callee]
+    dr = [c for c in an.calls if '::drain' in c.callee and c.argvals and c.argvals[0] == ('ref', NEW[1], 'mut')]
+    if len(sp) != 1 or len(dr) != 1:
+        ctx.unproved(R, 'TrainDisp::update_div_nodes', 'expected one splice of div_nodes and one drain of div_nodes_new, found %d / %d' % (len(sp), len(dr)), w); return
+    rng = sp[0].argvals[1]
+    f = dict(rng[2]) if rng[0] == 'agg' and rng[1] == 'Range' else {}
+    end = f.get('end')
+    ok = f.get('start') == split and end is not None and end[0] == 'loopvar'
+    if ok:
+        H, key = end[1], end[2]
+        ent = an.load(key, an.loop_entry[H]); backs = [an.load(key, s_) for s_ in an.loop_back.get(H, [])]
+        ok = ent == split and backs and all(v == mk('add', end, ONE) for v in backs)
+    ctx.check(ok, R, 'update_div_nodes|replaced range', 'the replaced range starts at the split cursor; its end is searched from there one node at a time',
+              'splice range %s' % show(rng, an.names)[:160], ctx.where(b, sp[0].span))
+    okd = dr[0].argvals[1] == ('agg', 'RangeFrom', (('start', ONE),)) and sp[0].argvals[2] == dr[0].result
+    ctx.check(okd, R, 'update_div_nodes|spliced-in nodes', 'what is spliced in is div_nodes_new without its first entry', 'drain %s ; splice source %s' % (
+        show(dr[0].argvals[1], an.names)[:60], show(sp[0].argvals[2], an.names)[:100]), ctx.where(b, dr[0].span))
+    want = mk('sub', mk('add', split, ('len', NEW)), ONE)
+    from sa.prove import Prover
+    r = an.ret()
+    v, _d = Prover(an.names, assume=[]).eq(r, want)
+    ctx.check(v == 'PROVED', R, 'update_div_nodes|returned cursor', 'the cursor returned is the split cursor plus the number of spliced-in nodes (len(div_nodes_new) - 1)',
+              'returns %s' % show(r, an.names)[:160], w)
